@@ -5,6 +5,7 @@ import JSight.RuleNameSpelling
 import JSight.LayoutExamples
 import JSight.CommentExamples
 import JSight.AnnotExamples
+import JSight.AnnTreeExamples
 /-!
 # C13 — Meaning is invariant under surface syntax: the part that is a theorem
 
@@ -284,5 +285,94 @@ theorem C13_inline_vs_multiline_note (tok s1 s2 : List UInt8) (ob : BObj) (s3 n1
 /-- non-vacuity: `1 // {min: 0, max :5, } - first id` against `1 /*⏎ {min: 0,⏎ max: 5⏎}⏎-  first id*/⏎` -/
 example := C13_inline_vs_multiline_note Lay.Ex.one [32] [32] Lay.Ex.obInl [32] [32] Lay.Ex.noteTxt [] [32] [10, 32]
   Lay.Ex.obMl [10] [32, 32] [42, 47, 10] Lay.Ex.annInlN_valid Lay.Ex.annMlN_valid Lay.Ex.same_pairs
+
+end Props.C13
+
+namespace Props.C13
+
+/-! ## Schema side: annotations INSIDE trees (work package c13o; modules `AnnTreeTok`, `AnnTreeLoad`, `AnnTree`)
+
+What is proved for all inputs: (a) the token grammar of C14 (`SchemaScan.Len.Tok`: blanks, line breaks, `#` comments, inline
+annotations, scalars, keys, brackets, separators, anywhere in a tree) extended with the MULTI-LINE annotation token
+`/* blanks {rules} blanks [- note] */` (`ATok.ml`, blanks with line breaks): the byte-level scanner model follows the
+token-level scanner (`SchemaScan.Len.asim`), hence `C13_multiline_annotation_scanned`: the exact event stream of any accepted
+token text; (b) `C13_annotated_text_loads_as_token_events`: scanner model + loader model interleaved (`loadText`) on such a
+text is the loader folded over the token-level events; (c) `C13_annotation_binds_in_any_tree_multiline / _inline`:
+`C16_annotation_binds_last_node` lifted from a one-node table to ARBITRARY node tables and read against the text: wherever
+in a tree the annotation stands, if node `i` is the node created last and the only one created on the line, its events add
+the rule NAMES and rule VALUE texts (written order) and the note to node `i` and change nothing else the node loader reads
+(`Loader.LS`: every node read against the text, leaf, last node, per-line counter, root, mode); (d)
+`C13_annotated_node_inline_vs_multiline`: the two forms with the same rules and note have the same effect, in any context.
+NOT proved (validated by the tie `c13-tree` only): the induction over whole annotated trees that composes (c) with the
+node events of the tree (`C13_annotated_tree_loads`, `…_inline_vs_multiline`, `…_layout_invariant` of the brief). -/
+
+open SchemaScan SchemaScan.Len in
+/-- the scanner model's event stream for the text of ANY token list the token-level scanner accepts (`arun`; tokens as in
+C14 plus the multi-line annotation) and that ends behind its top-level value: the token-level events, and the end of a
+top-level scalar -/
+theorem C13_multiline_annotation_scanned (toks : List ATok) (hw : ∀ t ∈ toks, t.WF) (c' : TC) (evs : List Ev)
+    (h : arun TC.init toks = some (c', evs)) (hend : Complete c') (bs : List UInt8)
+    (hbs : bs.map classify = renderAToks toks) : scanAll bs = .ok (evs ++ endClosers c') :=
+  SchemaScan.scan_atoks_whole toks hw c' evs h hend bs hbs
+
+/-- non-vacuity: `{⏎"a": 1 /* {min: 0} */,⏎"aa": [ // {min: 0} - note⏎1⏎]⏎}` -/
+example := C13_multiline_annotation_scanned SchemaScan.Len.Ex.toksA SchemaScan.Len.Ex.toksA_wf SchemaScan.Len.Ex.resA.1
+  SchemaScan.Len.Ex.resA.2 SchemaScan.Len.Ex.runA SchemaScan.Len.Ex.completeA SchemaScan.Len.Ex.bsA SchemaScan.Len.Ex.bsA_cls
+
+open SchemaScan SchemaScan.Len in
+/-- scanner model + loader model on such a text = the loader model folded over the token-level events -/
+theorem C13_annotated_text_loads_as_token_events (toks : List ATok) (hw : ∀ t ∈ toks, t.WF) (c' : TC) (evs : List Ev)
+    (h : arun TC.init toks = some (c', evs)) (hend : Complete c') (bs : List UInt8)
+    (hbs : bs.map classify = renderAToks toks) (st : Loader.St)
+    (hl : Loader.load bs.toArray (evs ++ endClosers c') = .ok st) : Loader.loadText bs = .ok st :=
+  Loader.loadText_atoks toks hw c' evs h hend bs hbs st hl
+
+open Lay Loader in
+/-- **a multi-line annotation binds to its node in any tree context** (`p`: offset of its first `/`; `annBody`: the bytes
+between `/*` and `*/`: blanks, `{`, the rule object, `}`, blanks, optionally `-`, blanks, the note) -/
+theorem C13_annotation_binds_in_any_tree_multiline (src : Array UInt8) {st : Loader.St} {AL : List XNode}
+    {leaf : Option Nat} {i : Nat} {root : Option Nat} (h : LS src st AL leaf (some i) 1 root) (xn : XNode)
+    (hn : AL[i]? = some xn) (s2 : List UInt8) (ob : BObj) (s3 : List UInt8) (nt : Option (List UInt8 × List UInt8))
+    (p : Nat) (hob : ob.cls.Valid .multi) (hnt : ∀ s4 txt, nt = some (s4, txt) → txt ≠ []) (rest : List UInt8)
+    (hat : AtB src (p + 2) (annBody s2 ob s3 nt ++ rest)) :
+    ∃ st', Fold src ((mlOf s2 ob s3 nt).evs p) st st' ∧
+      LS src st' (AL.set i (addAnn xn ob (nt.map (·.2)))) leaf (some i) 1 root :=
+  Lay.ml_effect src h xn hn s2 ob s3 nt p hob hnt rest hat
+
+/-- non-vacuity: `1 /* {min: 0} */`, from the empty loader state -/
+example := SchemaScan.Len.Ex.effectB
+
+open Lay Loader in
+/-- **an inline annotation binds to its node in any tree context**; its line break resets the per-line counter -/
+theorem C13_annotation_binds_in_any_tree_inline (src : Array UInt8) {st : Loader.St} {AL : List XNode}
+    {leaf : Option Nat} {i : Nat} {root : Option Nat} (h : LS src st AL leaf (some i) 1 root) (xn : XNode)
+    (hn : AL[i]? = some xn) (s2 : List UInt8) (ob : BObj) (s3 : List UInt8) (nt : Option (List UInt8 × List UInt8))
+    (p : Nat) (hob : ob.cls.Valid .inline) (hnt : ∀ s4 txt, nt = some (s4, txt) → txt ≠ []) (rest : List UInt8)
+    (hat : AtB src (p + 2) (annBody s2 ob s3 nt ++ rest)) :
+    ∃ st', Fold src ((inlOf s2 ob s3 nt).evs p) st st' ∧
+      LS src st' (AL.set i (addAnn xn ob (nt.map (·.2)))) leaf (some i) 0 root :=
+  Lay.inl_effect src h xn hn s2 ob s3 nt p hob hnt rest hat
+
+open Lay Loader in
+/-- **inline versus multi-line, one annotation in any tree context**: `// {R} [- note]` at offset `p` of one text and
+`/* {R'} [- note] */` at offset `p'` of another, same rules (names and values in the same order) and the same note, whatever
+blanks, line breaks and trailing commas: from loader states with the same table (read against the respective text) both
+add the same names, values and note to the same node -/
+theorem C13_annotated_node_inline_vs_multiline (src src' : Array UInt8) {st st2 : Loader.St} {AL : List XNode}
+    {leaf : Option Nat} {i : Nat} {root : Option Nat} (h : LS src st AL leaf (some i) 1 root)
+    (h' : LS src' st2 AL leaf (some i) 1 root) (xn : XNode) (hn : AL[i]? = some xn)
+    (s2 s2' : List UInt8) (ob ob' : BObj) (s3 s3' : List UInt8) (s4 s4' : List UInt8) (note : Option (List UInt8))
+    (p p' : Nat) (hob : ob.cls.Valid .inline) (hob' : ob'.cls.Valid .multi) (hsame : ob.pairs = ob'.pairs)
+    (hnt : ∀ t, note = some t → t ≠ []) (rest rest' : List UInt8)
+    (hat : AtB src (p + 2) (annBody s2 ob s3 (note.map (fun t => (s4, t))) ++ rest))
+    (hat' : AtB src' (p' + 2) (annBody s2' ob' s3' (note.map (fun t => (s4', t))) ++ rest')) :
+    ∃ st1 st1' T, Fold src ((inlOf s2 ob s3 (note.map (fun t => (s4, t)))).evs p) st st1 ∧
+      Fold src' ((mlOf s2' ob' s3' (note.map (fun t => (s4', t)))).evs p') st2 st1' ∧
+      LS src st1 T leaf (some i) 0 root ∧ LS src' st1' T leaf (some i) 1 root :=
+  Lay.node_inline_vs_multiline src src' h h' xn hn s2 s2' ob ob' s3 s3' s4 s4' note p p' hob hob' hsame hnt rest rest' hat hat'
+
+/-- non-vacuity: `1 // {min: 0} ⏎` against `1 /* {min: 0} */`, each from the empty loader state (also an instance of
+`C13_annotation_binds_in_any_tree_inline`) -/
+example := SchemaScan.Len.Ex.effectBC
 
 end Props.C13
